@@ -45,6 +45,19 @@ def f(x):
     return 2 * x + 1
 
 
+def input_of(ikind, data):
+    """list (also for 'vals'), lazily producing iterable with a scheduling point per item, one-shot iterator, or a
+    Sequence that cannot be sliced"""
+    if ikind == "lazy":
+        return vmp.LazyInput(data)
+    if ikind == "iter":
+        return iter(data)
+    if ikind == "deque":
+        import collections
+        return collections.deque(data)
+    return data
+
+
 def quota_of(cfg, i):
     """chunks the i-th worker of a plain pool may process (one number for all, or a list with one entry per worker)"""
     q = cfg.quota[i] if isinstance(cfg.quota, (list, tuple)) else cfg.quota
@@ -161,7 +174,7 @@ def make_driver(cfg):
                 for k, call in enumerate(cfg.calls):
                     mode, ikind, n, cs = call[:4]
                     data = call_input(k, n, ikind)
-                    inp = vmp.LazyInput(data) if ikind == "lazy" else (iter(data) if ikind == "iter" else data)
+                    inp = input_of(ikind, data)
                     pre[k] = pool.imap(inp, cs) if mode == "imap" else pool.imap_unordered(inp, cs)
             if cfg.zipped:
                 # two calls, one on each pool, whose results are taken alternately (zip(a.imap(x), b.imap(y)))
@@ -184,6 +197,7 @@ def make_driver(cfg):
                             live.remove(k)
                 for rec in recs:
                     rec["leftover"] = payload_items(s)
+            pending_close = []
             for k, call in enumerate(cfg.calls if not cfg.zipped else []):
                 mode, ikind, n, cs = call[:4]
                 exact = len(call) > 4 and call[4] == "exact"
@@ -192,21 +206,31 @@ def make_driver(cfg):
                 data = call_input(k, n, ikind)
                 rec = {"mode": mode, "data": data, "cs": cs, "yielded": [], "finished": False, "leftover": None}
                 out["calls"].append(rec)
-                inp = vmp.LazyInput(data) if ikind == "lazy" else (iter(data) if ikind == "iter" else data)
+                inp = input_of(ikind, data)
                 the_pool = pool2 if (pool2 is not None and k % 2 == 1) else pool
                 gen = pre[k] if k in pre else (the_pool.imap(inp, cs) if mode == "imap" else the_pool.imap_unordered(inp, cs))
-                if exact:
+                late = len(call) > 4 and call[4] == "exact-late-close"
+                if exact or late:
                     # the consumer takes exactly len(data) results (zip / islice style) and closes the generator at
                     # its last yield instead of driving it to StopIteration
                     for _ in range(n):
                         rec["yielded"].append(next(gen))
-                    gen.close()
+                    if late:
+                        # ... but only later: the generator stays suspended and is closed (garbage-collected, say)
+                        # in the middle of the NEXT call, right after that call's first result
+                        pending_close.append(gen)
+                    else:
+                        gen.close()
                 else:
                     for v in gen:
                         rec["yielded"].append(v)
+                        while pending_close:
+                            pending_close.pop().close()
                         if cfg.until_all_ready == "mid":
                             # between two results of a running call: retired workers are being replaced right now
                             wait_ready()
+                    while pending_close:
+                        pending_close.pop().close()
                 rec["finished"] = True
                 rec["leftover"] = payload_items(s)
             if cfg.until_all_ready == "each":
@@ -306,6 +330,11 @@ def judge(cfg, r):
             replace_alive = any(b["role"] == "ReplaceWorkerThread" for b in r.blocked)
             sig = {"family": fam, "kind": r.outcome, "blocked": bs, "in_call": ncall if in_call else 0}
             what = "%s: %s in call %d: blocked %s; finished: %s" % (cfg.name, r.outcome, ncall, bs, ",".join(finished_tasks))
+            if "__exit__" in bs and any(b["role"] == "W" for b in r.blocked):
+                # main is stuck inside the pool's __exit__ while a worker waits for work: that worker never reaches end()
+                v.append(("C04", {"family": fam, "kind": "exit-blocked", "blocked": bs},
+                          "%s: the pool context cannot be left, a worker never finishes (no end()): %s" % (cfg.name, bs),
+                          {"blocked": r.blocked}))
             if not faulty:
                 v.append(("C02", sig, what, {"blocked": r.blocked}))
                 if ncall > 1 or (cfg.kind == "factory"):
